@@ -33,12 +33,13 @@ impl<'a> CheckParams for Grammar<'a> {
             ));
         }
         let ux = x as usize;
+        // a node's left_id is the `right` argument of ConnectionMatrix::cost (bounded by num_right);
         // id 0 (BOS/EOS) is taken to exist even in a grammar without a connection matrix
-        let limit = self.conn_matrix().num_left().max(1);
+        let limit = self.conn_matrix().num_right().max(1);
         if ux >= limit {
             return Err(SudachiError::InvalidDataFormat(
                 ux,
-                format!("max grammar leftId is {}", self.conn_matrix().num_left()),
+                format!("max grammar leftId is {}", self.conn_matrix().num_right()),
             ));
         }
         return Ok(x as u16);
@@ -53,12 +54,13 @@ impl<'a> CheckParams for Grammar<'a> {
             ));
         }
         let ux = x as usize;
+        // a node's right_id is the `left` argument of ConnectionMatrix::cost (bounded by num_left);
         // id 0 (BOS/EOS) is taken to exist even in a grammar without a connection matrix
-        let limit = self.conn_matrix().num_right().max(1);
+        let limit = self.conn_matrix().num_left().max(1);
         if ux >= limit {
             return Err(SudachiError::InvalidDataFormat(
                 ux,
-                format!("max grammar rightId is {}", self.conn_matrix().num_right()),
+                format!("max grammar rightId is {}", self.conn_matrix().num_left()),
             ));
         }
         return Ok(x as u16);
